@@ -636,6 +636,7 @@ class _Sig(Exception):
 
 
 _SELF = object()
+TOD = 0.375         # the search starts at 09:00 of day 0: SDate offsets are relative to that instant, days are floor(off + TOD)
 _TD_SCALE = {'days': 1.0, 'seconds': 1 / 86400.0, 'microseconds': 1 / 86400e6, 'milliseconds': 1 / 86400e3,
              'minutes': 1 / 1440.0, 'hours': 1 / 24.0, 'weeks': 7.0}
 _TD_ORDER = ['days', 'seconds', 'microseconds', 'milliseconds', 'minutes', 'hours', 'weeks']
@@ -957,6 +958,15 @@ class SearchSim:
 
     def call(self, c, env, f, depth):
         fn = c.func
+        md = facts.is_midnight_of(c)
+        if md is not None:
+            # datetime(d.year, d.month, d.day) / d.replace(hour=0, ..) / datetime.combine(d.date(), time.min): the date cut
+            # to the start of its day.  The search starts at a time of day (TOD) after midnight.
+            d = self.ev(md, env, f, depth)
+            if isinstance(d, SDate):
+                import math
+                return SDate(math.floor(d.off + TOD + 1e-9) - TOD)
+            raise SimUnknown(c, "midnight of something else than a date")
         if any(isinstance(a, ast.Starred) for a in c.args) or any(k.arg is None for k in c.keywords):
             raise SimUnknown(c, "star arguments")
         if isinstance(fn, ast.Name) and fn.id not in env:
@@ -1024,7 +1034,7 @@ class SearchSim:
                     raise SimUnknown(c, "capacity query without a date")
                 self.probes.append(d.off)
                 import math
-                return 0.25 if math.floor(d.off + 1e-9) in self.avail else 0.0      # a small positive capacity is positive
+                return 0.25 if math.floor(d.off + TOD + 1e-9) in self.avail else 0.0    # a small positive capacity is positive
             if isinstance(fn.value, ast.Name) and (env.get(fn.value.id) is _SELF or fn.value.id in self.prog.classes) and f.cls:
                 g = self.prog.find_method(f.cls, unmangle(fn.attr))
                 if g is not None and g.kind in ('method', 'static') and fn.attr.startswith('_'):
